@@ -132,6 +132,10 @@ class SourceFile:
     def rewrite(self):
         new_code = self.new_code()
 
+        if b"\r\n" in self.filename.read_bytes():
+            # the file was read with universal newlines, preserve the line endings
+            new_code = new_code.replace("\r\n", "\n").replace("\n", "\r\n")
+
         with open(self.filename, "bw") as code:
             code.write(new_code.encode())
 
